@@ -83,7 +83,7 @@ def check(run):
     engines.r2_writer_table(run, P + '::buffer', {
         T + '::write_some_impl': 'fills a fresh segment', U + '::send_to_impl': 'fills a fresh datagram', T + '::read_some_impl': 'receiver consumes', U + '::receive_from_impl': 'receiver consumes'},
         required=[T + '::write_some_impl'])
-    KINDS = {T + '::packet_dropped': {'push_back'}, T + '::incoming_packet': {'erase'}, T + '::close': {'clear'}}
+    KINDS = {T + '::packet_dropped': {'push_back'}, T + '::incoming_packet': {'pop_front'}, T + '::close': {'clear'}}
     for fn in fx.repo_functions():
         if fn.d.get('defaulted') or fn.kind == 'ctor':
             continue
@@ -91,7 +91,10 @@ def check(run):
         for a in q.field_accesses(fn, {T + '::m_outgoing_packets'}):
             if not a.is_write:
                 continue
-            ok = a.kind == 'method' and a.method in KINDS.get(top, ())
+            ok = a.kind == 'method' and a.site['k'] == 'call' and q.canon_op(fn, a.site) in KINDS.get(top, ())
+            if not ok and a.kind == 'method' and a.site['k'] == 'call' and q.canon_op(fn, a.site) == 'clear' and handlers.FieldResetFlow(fx, T + '::m_outgoing_packets', {T}).exit_state(fx.fn1(T + '::close', '(boost::system::error_code &)')) == handlers.EMPTY:
+                callers = {cf.norm for cf, _c in fx.callers.get(fn.usr, [])}
+                ok = callers <= {T + '::close'} and bool(callers)     # a private helper of close()
             run.check(ok, 'R2k', 'retransmit-queue-ops', '%s: %s on m_outgoing_packets' % (top, a.method or a.kind), fn.loc(a.node), 'the retransmission queue is mutated by %s in %s' % (a.method or a.kind, top), 'whole-packet FIFO operation')
     ipk = fx.fn1(T + '::incoming_packet')
     rs = [v for n in ipk.all_nodes() if n['k'] == 'decl' for v in n['vars'] if 'm_outgoing_packets.front()' in q.render(ipk, v.get('init'))]
